@@ -275,7 +275,7 @@ def strategy():
     # the same number spelled as an integer and as a decimal, with different multipliers, at one position (the library's
     # modification ordering is not a total order on these, so anything that sorts them depends on the order written)
     twin = st.sampled_from([['100', 2], ['100.0', 1], ['1', 3], ['1.0', 1], ['1', 1], ['1.0', 2], ['0', 2], ['-0.0', 1], ['Oxidation', 1],
-                            ['15', 1], ['15.0', 3]])
+                            ['15', 1], ['15.0', 3], ['nan', 1], ['NAN', 2], ['inf', 1]])
     twins = gen.pep_model(alphabet='ACDEGKMST', min_len=3, max_len=10, allow_empty=False, mod_strategy=twin,
                           mod_list=st.lists(twin, min_size=2, max_size=3, unique_by=lambda m: (m[0], m[1])),
                           kinds=('internal', 'intervals', 'nterm', 'cterm', 'unknown', 'labile'))
